@@ -148,7 +148,8 @@ def scalar(rng):
     if k == 1:
         return rng.choice(["", "x", "hello", "hé wörld", "y" * 12, "z" * 70, "w" * 300])
     if k == 2:
-        return rng.choice([0.5, 1.25, -2.0])
+        # values that are EQUAL (and hash alike) across types but print differently: True / 1 / 1.0, False / 0 / 0.0 / -0.0
+        return rng.choice([0.5, 1.25, -2.0, 1.0, 0.0, -0.0, 2.0, 100.0])
     if k == 3:
         return rng.choice([True, False])
     if k == 4:
